@@ -41,11 +41,25 @@ var acctDBs = map[int]*acctDB{}
 // (fixes/C05-accountsadd-keeps-permission-history.patch).
 const histResetTag = "C05-accountsadd-resets-permission-history"
 
+// scratchBase: the per-account stores are throw-away; a memory file system (when the machine has one) keeps the sqlite
+// work of storage.AddAll off the disk.  "" = the default temporary directory.
+func scratchBase() string {
+	if os.Getenv("C05_DISK_STORES") == "" {
+		if fi, err := os.Stat("/dev/shm"); err == nil && fi.IsDir() {
+			if d, err := os.MkdirTemp("/dev/shm", "verif_c05_probe_"); err == nil {
+				_ = os.RemoveAll(d)
+				return "/dev/shm"
+			}
+		}
+	}
+	return ""
+}
+
 func acctStore(a int) (*acctDB, error) {
 	if d, ok := acctDBs[a]; ok {
 		return d, nil
 	}
-	dir, err := os.MkdirTemp("", fmt.Sprintf("verif_c05_open%d_", a))
+	dir, err := os.MkdirTemp(scratchBase(), fmt.Sprintf("verif_c05_open%d_", a))
 	if err != nil {
 		return nil, err
 	}
@@ -262,7 +276,9 @@ func (h *hist) openRound(after aclh.State) {
 		}
 		o.marker[idx] = marker
 		tree := o.trees[wr]
+		tree.Lock() // the tree's users hold its lock (otherwise every call logs a compressed stack trace: a third of the run time)
 		res, err := tree.AddContent(ctx, objecttree.SignableChangeContent{Data: marker, Key: h.W.Key(wr), ShouldBeEncrypted: true, DataType: "c05"})
+		tree.Unlock()
 		if err != nil || len(res.Added) == 0 {
 			// an account with write permission could not write encrypted content through its open tree
 			w.Stat("open_write_failed")
@@ -327,7 +343,10 @@ func (h *hist) openRound(after aclh.State) {
 			if len(raws) == 0 {
 				continue
 			}
-			if _, err := o.trees[a].AddRawChanges(ctx, objecttree.RawChangesPayload{NewHeads: heads, RawChanges: raws}); err != nil {
+			o.trees[a].Lock()
+			_, err := o.trees[a].AddRawChanges(ctx, objecttree.RawChangesPayload{NewHeads: heads, RawChanges: raws})
+			o.trees[a].Unlock()
+			if err != nil {
 				w.Stat("open_deliver_error")
 			}
 		}
